@@ -103,6 +103,24 @@ def binop(E, op, a, b):
             _raise('ValueError', str(e))
     ta, tb = known_type(E, a), known_type(E, b)
     num = ('int', 'bool')
+    if (ta is None or tb is None) and not E.spec_mode and getattr(E.cur_contract, 'numeric_split', False) \
+            and op in ('Add', 'Sub', 'Mult', 'Div', 'FloorDiv'):
+        # values of unknown type in arithmetic: case split int / float / anything else (TypeError); the contract
+        # states this value domain as an assumption
+        for v in (a, b):
+            if isinstance(v, VO) and known_type(E, v) is None:
+                nm = v.name
+                if E.tfacts.get((nm, 'nonnumeric')):
+                    _raise('TypeError', 'unsupported operand type(s)')
+                opts = [o for o in ('int', 'float') if E.tfacts.get((nm, o)) is not False] + ['nonnumeric']
+                k = opts[E.decide(len(opts), 'numeric type of %s' % nm)]
+                for o in ('int', 'float'):
+                    if o != k:
+                        E.tfacts.setdefault((nm, o), False)
+                E.tfacts[(nm, k)] = True
+                if k == 'nonnumeric':
+                    _raise('TypeError', 'unsupported operand type(s)')
+        ta, tb = known_type(E, a), known_type(E, b)
     if ta in num and tb in num:
         x, y = E.as_z3_int(a), E.as_z3_int(b)
         if op == 'Add':
@@ -287,6 +305,8 @@ def identical(E, a, b):
             t = known_type(E, me)
             if t is not None and t != type(other.v).__name__:
                 return False
+        if isinstance(other, VC) and other.v is None and known_type(E, me) is not None:
+            return False     # a value known to be an int / float / str / tuple is not None
         if isinstance(other, VRef):
             h = E.heap[other.addr]
             if isinstance(h, HObj) and h.prov == 'fresh' or isinstance(h, (HList, HDict)):
@@ -306,9 +326,9 @@ def identical(E, a, b):
     if isinstance(a, VSeq) and isinstance(b, VSeq):
         return a.name == b.name
     if type(a) is not type(b):
-        if isinstance(a, (VI, VB, VS)) and isinstance(b, VC) and b.v is None:
+        if isinstance(a, (VI, VB, VS, VR)) and isinstance(b, VC) and b.v is None:
             return False
-        if isinstance(b, (VI, VB, VS)) and isinstance(a, VC) and a.v is None:
+        if isinstance(b, (VI, VB, VS, VR)) and isinstance(a, VC) and a.v is None:
             return False
         if isinstance(a, (VT, VRef, VExc, VSeq)) and isinstance(b, VC):
             return False
@@ -574,7 +594,9 @@ def getitem(E, obj, idx):
                 else:
                     _raise('TypeError', 'list indices must be integers')
             i = norm_index(E, idx, n)
-            return E.list_get(h, i)
+            r = E.list_get(h, i)
+            E.trace.append(('list-read', obj.addr, i, r))
+            return r
         if isinstance(h, HDict):
             if getattr(E, 'spec_lenient', False):
                 # a subscript written in a clause itself: a missing key is an undefined value (no exception,
